@@ -2,7 +2,8 @@
    Theorems about the executable ports in NoHalt/Model.v of the arithmetic whose
    errors are fatal (an error returned from BeginBlock/EndBlock is turned into a
    panic by the multiplexer).  [Fatal] = the Go function returns an error. *)
-From Verif Require Import Lib.Base NoHalt.Model NoHalt.Proofs NoHalt.TallyProofs.
+From Verif Require Import Lib.Base NoHalt.Model NoHalt.Proofs NoHalt.SeqProofs NoHalt.TallyProofs.
+From Verif Require Import Sched.Elect NoHalt.ElectProofs.
 
 (* disburseFeesP never fails, for any fee total and any weights that pass
    ConsensusParameters.SanityCheck (not all three zero), proposer known or not *)
@@ -95,6 +96,39 @@ Theorem rewards_fatal_on_empty_commit_info :
     rden <> 0 -> reward rden cden bal ts factor scale num 0 pool rate = Fatal.
 Proof. exact reward_fatal_den_zero. Qed.
 Print Assumptions rewards_fatal_on_empty_commit_info.
+
+(* the epoch-end AddRewards LOOP (entities share one common-pool value, an entity whose
+   reward does not fit is skipped, the pool is written once) never fails: for any pool
+   -- also one that runs dry in the middle of the loop --, any stakes -- also dead pools
+   (zero balance, shares outstanding) --, any factor/scale and any commission rates up to
+   100 %; it yields one entry per entity and the pool decreases by exactly what was paid *)
+Theorem rewards_sequence_total :
+  forall rden cden factor scale accts pool,
+    rden <> 0 -> cden <> 0 -> rates_ok cden accts ->
+    exists l p, rewards_seq rden cden factor scale accts pool = Ok (l, p) /\
+                length l = length accts /\ p + paid l = pool.
+Proof. exact rewards_seq_ok. Qed.
+Print Assumptions rewards_sequence_total.
+
+(* the proposer-reward path end to end: total because the commit info can be empty only
+   at the first block, where no epoch is known and the path returns early *)
+Theorem proposer_reward_path_total :
+  forall rden cden known epoch_valid scale bal ts factor nVE nEV pool rate,
+    rden <> 0 -> cden <> 0 -> rate <= cden -> (epoch_valid = true -> nEV <> 0) ->
+    is_fatal (proposer_path rden cden known epoch_valid scale bal ts factor nVE nEV pool rate) = false.
+Proof. exact proposer_path_total. Qed.
+Print Assumptions proposer_reward_path_total.
+
+(* the signing-reward path end to end (threshold test with its overflow guards, then
+   AddRewards over the eligible entities): never fails while the counters fit in 64 bits,
+   and conserves the pool *)
+Theorem signing_reward_path_total :
+  forall rden cden tnum tden total factor scale ents pool,
+    rden <> 0 -> cden <> 0 -> signing_ok cden tnum tden total ents ->
+    exists l p, signing_path rden cden tnum tden total factor scale ents pool = Ok (l, p) /\
+                p + paid l = pool.
+Proof. exact signing_path_ok. Qed.
+Print Assumptions signing_reward_path_total.
 
 (* TransferFromCommon(escrow=true) (as repaired by commit c3a21ab) never fails, for ANY
    destination pool -- including one slashed to zero with shares outstanding -- any pool,
@@ -210,3 +244,55 @@ Theorem stake_for_shares_total :
   forall bal ts shares, stake_for_shares bal ts shares = Ok (stake_pure bal ts shares).
 Proof. exact stake_for_shares_pure. Qed.
 Print Assumptions stake_for_shares_total.
+
+(* ---- the validator election (fatal by design; model: Verif.Sched.Elect) ---- *)
+
+(* VotingPowerFromStake (linear distribution) fails exactly from 2^67 base units on *)
+Theorem voting_power_overflow_exactly :
+  forall stake, voting_power false stake = None <-> 2 ^ 67 <= stake.
+Proof. exact voting_power_linear_none_iff. Qed.
+Print Assumptions voting_power_overflow_exactly.
+
+(* which the genesis bound on the total supply (its power is at most MaxInt64/8) excludes *)
+Theorem voting_power_defined_under_genesis_bound :
+  forall stake supply,
+    stake <= supply -> supply / 16 <= (2 ^ 63 - 1) / 8 -> voting_power false stake <> None.
+Proof. exact voting_power_defined_under_supply_bound. Qed.
+Print Assumptions voting_power_defined_under_genesis_bound.
+
+(* With unique consensus keys and no voting-power overflow among the candidates, the
+   election fails EXACTLY when there is no stake-eligible validator candidate ("failed to
+   elect any validators") or fewer of them than MinValidators after the MaxValidators cut
+   ("insufficient validators"); otherwise it succeeds *)
+Theorem election_fails_exactly :
+  forall p ents perm_e cands sh,
+    let seq := cand_seq_sh p ents perm_e cands sh in
+    powers_defined p ents seq -> NoDup (map n_cons seq) ->
+    match seq with
+    | [] => elect_core p ents perm_e cands sh = VErrNone
+    | _ =>
+        let k := N.min (len seq) (N.max (p_max p) 1) in
+        if k <? p_min p
+        then elect_core p ents perm_e cands sh = VErrInsufficient
+        else exists vals vents, elect_core p ents perm_e cands sh = VOk vals vents
+    end.
+Proof. exact election_outcome. Qed.
+Print Assumptions election_fails_exactly.
+
+(* the documented precondition: enough stake-eligible validators remain => no failure *)
+Theorem election_total_under_precondition :
+  forall p ents perm_e cands sh,
+    let seq := cand_seq_sh p ents perm_e cands sh in
+    powers_defined p ents seq -> NoDup (map n_cons seq) ->
+    seq <> [] -> p_min p <= len seq -> p_min p <= N.max (p_max p) 1 ->
+    exists vals vents, elect_core p ents perm_e cands sh = VOk vals vents.
+Proof. exact election_succeeds_under_precondition. Qed.
+Print Assumptions election_total_under_precondition.
+
+(* the only remaining failure is a voting-power conversion error inside the loop *)
+Theorem election_power_error_exactly :
+  forall p ents perm_e cands sh,
+    elect_core p ents perm_e cands sh = VErrPower <->
+    fill p ents (cand_seq_sh p ents perm_e cands sh) [] [] = None.
+Proof. exact election_power_error_iff. Qed.
+Print Assumptions election_power_error_exactly.
